@@ -33,12 +33,14 @@ def build():
     s.flag = cc.FeatureFlagField(default=True)
     s.rs = cc.StringField(required=True)
     s.ri = cc.IntField(required=True, default=5)
+    s.re = cc.StringField(required=True, default="")          # the declared default does not satisfy the requirement
     s.x = cc.IntField()
     s.y = cc.IntField()
     s.fv = cc.IntField()
     s.sub.enabled = cc.FeatureFlagField(default=True)
     s.sub.rl = cc.ListField(cc.IntField(), required=True)
     s.sub.rd = cc.DictField(required=True, default={"k": 1})
+    s.sub.rle = cc.ListField(cc.IntField(), required=True, default=[])
     s.sub.a = cc.IntField()
     s.sub.deep.on = cc.FeatureFlagField(default=True)
     s.sub.deep.r = cc.StringField(required=True)
@@ -93,14 +95,14 @@ def fresh_deep():
 
 
 def fresh_sub():
-    return {"enabled": True, "rl": None, "rd": {"k": 1}, "a": None, "deep": fresh_deep()}
+    return {"enabled": True, "rl": None, "rd": {"k": 1}, "rle": [], "a": None, "deep": fresh_deep()}
 
 
 def fresh():
-    return {"flag": True, "rs": None, "ri": 5, "x": None, "y": None, "fv": None, "sub": fresh_sub(), "items": None, "t": {"r": "t"}}
+    return {"flag": True, "rs": None, "ri": 5, "re": "", "x": None, "y": None, "fv": None, "sub": fresh_sub(), "items": None, "t": {"r": "t"}}
 
 
-REQUIRED = {"": ["rs", "ri"], "sub": ["rl", "rd"], "sub.deep": ["r"], "t": ["r"], "item": ["r"]}
+REQUIRED = {"": ["rs", "ri", "re"], "sub": ["rl", "rd", "rle"], "sub.deep": ["r"], "t": ["r"], "item": ["r"]}
 EMPTY = ("", [], {})
 
 
@@ -120,7 +122,7 @@ def apply_tree(state, tree):
                         else:
                             deep[k3] = v3
                     sub["deep"] = deep
-                elif kk in ("rl", "rd") and (vv is None or vv in EMPTY):
+                elif kk in ("rl", "rd", "rle") and (vv is None or vv in EMPTY):
                     rej.append(("sub", kk, vv))
                 else:
                     sub[kk] = vv
@@ -144,7 +146,7 @@ def apply_tree(state, tree):
                         d[kk] = vv
                 items.append(d)
             st["items"] = items
-        elif k in ("rs", "ri") and (v is None or v in EMPTY):
+        elif k in ("rs", "ri", "re") and (v is None or v in EMPTY):
             rej.append(("", k, v))
         elif k == "fv" and v is not None and v % 2:
             rej.append(("", "fv", v))      # the field validator rejects the value when it is set
@@ -228,8 +230,8 @@ def read_state(cfg):
     items = None
     if cfg.items is not None:
         items = [{"r": it.r, "n": it.n} for it in cfg.items]
-    return {"flag": cfg.flag, "rs": cfg.rs, "ri": cfg.ri, "x": cfg.x, "y": cfg.y, "fv": cfg.fv,
-            "sub": {"enabled": cfg.sub.enabled, "rl": plain(cfg.sub.rl), "rd": plain(cfg.sub.rd), "a": cfg.sub.a,
+    return {"flag": cfg.flag, "rs": cfg.rs, "ri": cfg.ri, "re": cfg.re, "x": cfg.x, "y": cfg.y, "fv": cfg.fv,
+            "sub": {"enabled": cfg.sub.enabled, "rl": plain(cfg.sub.rl), "rd": plain(cfg.sub.rd), "rle": plain(cfg.sub.rle), "a": cfg.sub.a,
                     "deep": {"on": cfg.sub.deep.on, "r": cfg.sub.deep.r}},
             "items": items, "t": {"r": cfg.t.r}}
 
@@ -248,6 +250,8 @@ def leaf_alphabets(tier):
         "rl": [ABSENT, None, [], [1]] if full else [ABSENT, [], [1]],
         "rd": [ABSENT, None, {}, {"q": 2}] if full else [ABSENT, {}],
         "r": [ABSENT, None, "", "deep"] if full else [ABSENT, None, "deep"],
+        "re": [ABSENT, "given"],
+        "rle": [ABSENT, [7]],
     }
 
 
@@ -274,7 +278,7 @@ def make_tree(leaves, flags, side):
     t = {}
     if flags[0] is not ABSENT:
         t["flag"] = flags[0]
-    for k in ("rs", "ri"):
+    for k in ("rs", "ri", "re"):
         if leaves[k] is not ABSENT:
             t[k] = leaves[k]
     for k in ("x", "y", "fv"):
@@ -283,7 +287,7 @@ def make_tree(leaves, flags, side):
     sub = {}
     if flags[1] is not ABSENT:
         sub["enabled"] = flags[1]
-    for k in ("rl", "rd"):
+    for k in ("rl", "rd", "rle"):
         if leaves[k] is not ABSENT:
             sub[k] = leaves[k]
     if "a" in side:
@@ -304,7 +308,7 @@ def make_tree(leaves, flags, side):
     return t
 
 
-VALID_TREE = {"rs": "v", "ri": 6, "sub": {"rl": [3], "rd": {"z": 1}, "deep": {"r": "d"}}, "items": [{"r": "p", "n": 1}]}
+VALID_TREE = {"rs": "v", "ri": 6, "re": "e", "sub": {"rl": [3], "rd": {"z": 1}, "rle": [1], "deep": {"r": "d"}}, "items": [{"r": "p", "n": 1}]}
 PRIORS = ["fresh", "valid-loaded", "assigned", "reset"]
 
 
@@ -324,6 +328,8 @@ def make_prior(schema, prior):
             st["sub"]["rl"] = None
         return cfg, st
     cfg.rs = "as"
+    cfg.re = "ae"
+    st["re"] = "ae"
     cfg.sub.rl = [9]
     cfg.sub.deep.r = "ad"
     cfg.sub.enabled = False
@@ -365,8 +371,9 @@ def run_job(job, ctx):
     only = job.get("only")
     schema = build()
     n = 0
-    for combo in itertools.product(*[la[k] for k in ("rs", "ri", "rl", "rd", "r")]):
-        leaves = dict(zip(("rs", "ri", "rl", "rd", "r"), combo))
+    LK = ("rs", "ri", "rl", "rd", "r", "re", "rle")
+    for combo in itertools.product(*[la[k] for k in LK]):
+        leaves = dict(zip(LK, combo))
         for si, side in enumerate(sides):
             tree = make_tree(leaves, flags, side)
             for prior in PRIORS:
@@ -377,7 +384,7 @@ def run_job(job, ctx):
                     n += 1
                     check_load(ctx, job, schema, tree, prior, route, key)
     ctx.states += n
-    ctx.sample({"flags(root,sub,deep)": [str(f) for f in flags], "example_tree": make_tree(dict(zip(("rs", "ri", "rl", "rd", "r"), [None, 7, [], ABSENT, "deep"])), flags, sides[1])})
+    ctx.sample({"flags(root,sub,deep)": [str(f) for f in flags], "example_tree": make_tree(dict(zip(("rs", "ri", "rl", "rd", "r", "re", "rle"), [None, 7, [], ABSENT, "deep", "given", ABSENT])), flags, sides[1])})
 
 
 def _k(v):
@@ -541,5 +548,57 @@ def _inserts(job, ctx):
                                   % (how, name, [(i.r, i.n) for i in cfg.items]), case)
                 if ok and raised is None and "item" not in {e[0] for e in LOG}:
                     ctx.violation("C11|insert|%s|validator-not-run" % how, "%s did not run the item validator" % how, case)
+    # sequences on one item object and one list: every (re-)insertion validates the item again
+    for seq in ("append-rejected-twice", "invalidate-then-append-pop", "invalidate-then-setitem-self", "invalidate-then-insert", "invalidate-then-slice",
+                "invalidate-then-iadd", "invalidate-then-assign-list"):
+        if only is not None and only != ["seq", seq]:
+            continue
+        cfg = schema()
+        cfg.load_tree(copy.deepcopy(VALID_TREE))
+        item_schema = schema._fields["items"].field
+        ctx.transitions += 1
+        outcome = None
+        try:
+            if seq == "append-rejected-twice":
+                it = item_schema()
+                it.n = 2                      # r (required) never set
+                first = None
+                try:
+                    cfg.items.append(it)
+                except Exception as exc:  # noqa
+                    first = exc
+                if first is None:
+                    outcome = "first append of an item without its required field was accepted"
+                else:
+                    try:
+                        cfg.items.append(it)
+                        outcome = "the retried append of the rejected item was accepted"
+                    except Exception:  # noqa
+                        pass
+            else:
+                it = cfg.items[0]
+                it.n = 13                     # field-valid, but the item's schema validator refuses it
+                try:
+                    if seq == "invalidate-then-append-pop":
+                        cfg.items.append(cfg.items.pop())
+                    elif seq == "invalidate-then-setitem-self":
+                        cfg.items[0] = cfg.items[0]
+                    elif seq == "invalidate-then-insert":
+                        cfg.items.insert(0, cfg.items.pop())
+                    elif seq == "invalidate-then-slice":
+                        cfg.items[0:1] = [cfg.items[0]]
+                    elif seq == "invalidate-then-iadd":
+                        x = cfg.items.pop()
+                        cfg.items += [x]
+                    else:
+                        cfg.items = [cfg.items[0]]
+                    outcome = "an item its own validator refuses was accepted by the re-insertion"
+                except Exception:  # noqa
+                    pass
+        except Exception as exc:  # noqa
+            outcome = "sequence raised %r" % (exc,)
+        ctx.case(("seq", seq), "insert-seq:%s:%s" % (seq, "bad" if outcome else "ok"), True)
+        if outcome:
+            ctx.violation("C11|insert-seq|%s" % seq, "%s: %s" % (seq, outcome), _case(job, ["seq", seq]))
     ctx.states += 1
     ctx.traces += 1
